@@ -340,6 +340,12 @@ def make_converter(ty: IntoConverter, handlers: ConverterHandlers = ConverterHan
             constructor, handlers=handlers
         )
 
+    # subclasses of the date/time types can't be made from an instance of their base (`Sub(date_obj)` is not a
+    # constructor call the datetime types understand): their own converter parses into the subclass
+    if issubclass(base, (datetime.date, datetime.time)):
+        from .converters import DatetimeConverter
+        return DatetimeConverter(base)  # type: ignore
+
     # after we've handled common cases, look for subclasses of basic types
     for conv_ty in _BASIC_CONVERTERS.keys():
         if issubclass(base, conv_ty):
